@@ -751,3 +751,158 @@ Proof.
   split; [reflexivity|]. split; [reflexivity|].
   trace_facts. auto.
 Qed.
+
+
+
+Theorem download_active_complete_tls w path r1 r2 rest x1 x2 x3 line :
+  insync w (r1 :: r2 :: rest) -> w_data w = None ->
+  c_mode (w_cfg w) = Active -> c_tls (w_cfg w) = true ->
+  has_crlf path = false -> adv_cmd w = Some line ->
+  simple_reaction r1 x1 -> is_negative x1 = false ->
+  accepts_transfer r2 x2 x3 -> dp_reachable (r_data r2) = true -> dp_end (r_data r2) = DEof ->
+  dp_tls_ok (r_data r2) = true -> dp_shutdown_ok (r_data r2) = true ->
+  exists w', step w (ADownload path None None) = (OReturn (RvReplies [x1; x2; x3]), w') /\
+    insync w' rest /\ w_data w' = None /\ w_cfg w' = w_cfg w /\
+    sink_bytes (io_events (skipn (length (w_trace w)) (w_trace w'))) = delivered (c_type (w_cfg w)) (concat (dp_segs (r_data r2))) /\
+    wire_events (skipn (length (w_trace w)) (w_trace w')) =
+      [WLine line; WReply x1; WLine (RETR_ ++ SP :: path); WReply x2; WReply x3] /\
+    data_events (skipn (length (w_trace w)) (w_trace w')) =
+      [DNewObj; DListen; DAcceptOk;
+       DHandshake (if c_resume (w_cfg w) then Some (w_sess_id w) else None) true;
+       DTlsShutdown true; DTcpShutdown; DClose; DAccClose].
+Proof.
+  intros ((Ho & Hs & Hpc & Hb) & Hp & Hc) Hd Hm Htls Hpath Hadv (R1n & R1c & R1a & R1x) N1
+         (R2n & R2c & R2a & N2 & X2 & X3) Reach End Tok Sok.
+  destruct w as [cfg f2 f3 f4 f5 f6 f7 f8 f9 f10 f11 f12 f13 f14 f15 f16 f17 f18 f19 f20].
+  destruct cfg as [cm crfc cty ctls cres].
+  cbn in Ho, Hs, Hpc, Hb, Hp, Hc, Hd, Hm, Htls. subst.
+  destruct r1 as [n1 oc1 dp1 ca1 tl1 d1]. destruct r2 as [n2 oc2 dp2 ca2 tl2 d2].
+  cbn in R1n, R1c, R1a, Reach, R2n, R2c, R2a, End, Tok, Sok. subst.
+  unfold adv_cmd in Hadv. cbn [w_cfg c_rfc2428] in Hadv.
+  destruct (data_recv cty (mkSink None O) (dp_segs d2) DEof None) as [[ev r] cb'] eqn:DR.
+  pose proof (data_recv_nocb _ _ _ _ _ _ _ DR) as ->.
+  pose proof (download_completes_any_type _ _ _ _ _ _ (eq_refl : good_sink (mkSink None O)) DR) as ->.
+  pose proof (download_sink_any_type _ _ _ _ _ (eq_refl : good_sink (mkSink None O)) DR) as SB.
+  rewrite step_download_unfold. unfold op_download.
+  rewrite run_checkarg, Hpath, run_scope.
+  unfold create_data_connection. rewrite run_getcfg. flat.
+  rewrite run_isopen. flat. rewrite run_dnew, run_dlisten.
+  erewrite (xchg_adv (if crfc then AdvEprt else AdvPort) _ _ line _ _ x1);
+    [| repeat split; auto | reflexivity | repeat split; auto | destruct crfc; exact Hadv].
+  cbv beta. rewrite N1. cbv beta iota.
+  erewrite (xchg RETR_ (Some path) _ _ _ _ x2); [| repeat split; auto | reflexivity | repeat split; auto | exact Hpath].
+  cbv beta. rewrite N2. cbv beta iota.
+  rewrite run_daccept by exact Reach.
+  rewrite (run_dhandshake _ _ (mkD true true false)); [| reflexivity | exact Tok].
+  rewrite (run_pumpin _ _ ev PDone None); [| cbn; rewrite End; exact DR | discriminate].
+  unfold finish_transfer. rewrite run_poll_none by reflexivity.
+  rewrite (run_ddisconnect_tls true _ _ (mkD true true true)); [| reflexivity | reflexivity | exact Sok].
+  rewrite (recv_reply _ _ (S f18) x3 []); [| reflexivity | cbn; rewrite !Hdp; reflexivity | exact X3].
+  rewrite run_ret.
+  eexists. split; [reflexivity|].
+  split. { unfold insync, ready. cbn. rewrite Hs. auto. }
+  split; [reflexivity|]. split; [reflexivity|].
+  trace_facts. auto.
+Qed.
+
+Theorem upload_active_complete_tls w u path chunks r1 r2 rest x1 x2 x3 line :
+  insync w (r1 :: r2 :: rest) -> w_data w = None ->
+  c_mode (w_cfg w) = Active -> c_tls (w_cfg w) = true ->
+  has_crlf path = false -> adv_cmd w = Some line ->
+  simple_reaction r1 x1 -> is_negative x1 = false ->
+  accepts_transfer r2 x2 x3 -> dp_reachable (r_data r2) = true ->
+  dp_tls_ok (r_data r2) = true -> dp_shutdown_ok (r_data r2) = true ->
+  exists w', step w (AUpload u path chunks None) = (OReturn (RvReplies [x1; x2; x3]), w') /\
+    insync w' rest /\ w_data w' = None /\ w_cfg w' = w_cfg w /\
+    net_out_bytes (io_events (skipn (length (w_trace w)) (w_trace w'))) = sent (c_type (w_cfg w)) chunks /\
+    wire_events (skipn (length (w_trace w)) (w_trace w')) =
+      [WLine line; WReply x1; WLine (upverb_bytes u ++ SP :: path); WReply x2; WReply x3] /\
+    data_events (skipn (length (w_trace w)) (w_trace w')) =
+      [DNewObj; DListen; DAcceptOk;
+       DHandshake (if c_resume (w_cfg w) then Some (w_sess_id w) else None) true;
+       DTlsShutdown true; DTcpShutdown; DClose; DAccClose].
+Proof.
+  intros ((Ho & Hs & Hpc & Hb) & Hp & Hc) Hd Hm Htls Hpath Hadv (R1n & R1c & R1a & R1x) N1
+         (R2n & R2c & R2a & N2 & X2 & X3) Reach Tok Sok.
+  destruct w as [cfg f2 f3 f4 f5 f6 f7 f8 f9 f10 f11 f12 f13 f14 f15 f16 f17 f18 f19 f20].
+  destruct cfg as [cm crfc cty ctls cres].
+  cbn in Ho, Hs, Hpc, Hb, Hp, Hc, Hd, Hm, Htls. subst.
+  destruct r1 as [n1 oc1 dp1 ca1 tl1 d1]. destruct r2 as [n2 oc2 dp2 ca2 tl2 d2].
+  cbn in R1n, R1c, R1a, Reach, R2n, R2c, R2a, Tok, Sok. subst.
+  unfold adv_cmd in Hadv. cbn [w_cfg c_rfc2428] in Hadv.
+  destruct (data_send cty block_size chunks None) as [[ev r] cb'] eqn:DS.
+  pose proof (data_send_nocb _ _ _ _ _ _ DS) as ->.
+  pose proof (upload_completes_without_callback _ _ _ _ _ _ DS) as ->.
+  pose proof (upload_net_any_type _ _ _ _ DS) as NB.
+  rewrite step_upload_unfold. unfold op_upload.
+  rewrite run_checkarg, Hpath, run_scope.
+  unfold create_data_connection. rewrite run_getcfg. flat.
+  rewrite run_isopen. flat. rewrite run_dnew, run_dlisten.
+  erewrite (xchg_adv (if crfc then AdvEprt else AdvPort) _ _ line _ _ x1);
+    [| repeat split; auto | reflexivity | repeat split; auto | destruct crfc; exact Hadv].
+  cbv beta. rewrite N1. cbv beta iota.
+  erewrite (xchg (upverb_bytes u) (Some path) _ _ _ _ x2); [| repeat split; auto | reflexivity | repeat split; auto | exact Hpath].
+  cbv beta. rewrite N2. cbv beta iota.
+  rewrite run_daccept by exact Reach.
+  rewrite (run_dhandshake _ _ (mkD true true false)); [| reflexivity | exact Tok].
+  rewrite (run_pumpout _ _ ev PDone None); [| exact DS | discriminate].
+  unfold finish_transfer. rewrite run_poll_none by reflexivity.
+  rewrite (run_ddisconnect_tls true _ _ (mkD true true true)); [| reflexivity | reflexivity | exact Sok].
+  rewrite (recv_reply _ _ (S f18) x3 []); [| reflexivity | cbn; rewrite !Hdp; reflexivity | exact X3].
+  rewrite run_ret.
+  eexists. split; [reflexivity|].
+  split. { unfold insync, ready. cbn. rewrite Hs. auto. }
+  split; [reflexivity|]. split; [reflexivity|].
+  trace_facts. auto.
+Qed.
+
+Theorem list_active_complete_tls w path names r1 r2 rest x1 x2 x3 line :
+  insync w (r1 :: r2 :: rest) -> w_data w = None ->
+  c_mode (w_cfg w) = Active -> c_tls (w_cfg w) = true ->
+  arg_ok path -> adv_cmd w = Some line ->
+  simple_reaction r1 x1 -> is_negative x1 = false ->
+  accepts_transfer r2 x2 x3 -> dp_reachable (r_data r2) = true -> dp_end (r_data r2) = DEof ->
+  dp_tls_ok (r_data r2) = true -> dp_shutdown_ok (r_data r2) = true ->
+  exists w', step w (AList path names) = (OReturn (RvList [x1; x2; x3] (delivered (c_type (w_cfg w)) (concat (dp_segs (r_data r2))))), w') /\
+    insync w' rest /\ w_data w' = None /\ w_cfg w' = w_cfg w /\
+    wire_events (skipn (length (w_trace w)) (w_trace w')) =
+      [WLine line; WReply x1; WLine (line_of (if names then NLST_ else LIST_) path); WReply x2; WReply x3] /\
+    data_events (skipn (length (w_trace w)) (w_trace w')) =
+      [DNewObj; DListen; DAcceptOk;
+       DHandshake (if c_resume (w_cfg w) then Some (w_sess_id w) else None) true;
+       DTlsShutdown true; DTcpShutdown; DClose; DAccClose].
+Proof.
+  intros ((Ho & Hs & Hpc & Hb) & Hp & Hc) Hd Hm Htls Hpath Hadv (R1n & R1c & R1a & R1x) N1
+         (R2n & R2c & R2a & N2 & X2 & X3) Reach End Tok Sok.
+  destruct w as [cfg f2 f3 f4 f5 f6 f7 f8 f9 f10 f11 f12 f13 f14 f15 f16 f17 f18 f19 f20].
+  destruct cfg as [cm crfc cty ctls cres].
+  cbn in Ho, Hs, Hpc, Hb, Hp, Hc, Hd, Hm, Htls. subst.
+  destruct r1 as [n1 oc1 dp1 ca1 tl1 d1]. destruct r2 as [n2 oc2 dp2 ca2 tl2 d2].
+  cbn in R1n, R1c, R1a, Reach, R2n, R2c, R2a, End, Tok, Sok. subst.
+  unfold adv_cmd in Hadv. cbn [w_cfg c_rfc2428] in Hadv.
+  destruct (data_recv cty (mkSink None O) (dp_segs d2) DEof None) as [[ev r] cb'] eqn:DR.
+  pose proof (download_completes_any_type _ _ _ _ _ _ (eq_refl : good_sink (mkSink None O)) DR) as ->.
+  pose proof (download_sink_any_type _ _ _ _ _ (eq_refl : good_sink (mkSink None O)) DR) as SB.
+  rewrite step_list_unfold. unfold op_list.
+  assert (Hcheck : has_crlf (match path with Some p => p | None => [] end) = false).
+  { destruct path as [p|]; [exact Hpath|reflexivity]. }
+  rewrite run_checkarg, Hcheck, run_scope.
+  unfold create_data_connection. rewrite run_getcfg. flat.
+  rewrite run_isopen. flat. rewrite run_dnew, run_dlisten.
+  erewrite (xchg_adv (if crfc then AdvEprt else AdvPort) _ _ line _ _ x1);
+    [| repeat split; auto | reflexivity | repeat split; auto | destruct crfc; exact Hadv].
+  cbv beta. rewrite N1. cbv beta iota.
+  erewrite (xchg (if names then NLST_ else LIST_) path _ _ _ _ x2); [| repeat split; auto | reflexivity | repeat split; auto | exact Hpath].
+  cbv beta. rewrite N2. cbv beta iota.
+  rewrite run_daccept by exact Reach.
+  rewrite (run_dhandshake _ _ (mkD true true false)); [| reflexivity | exact Tok].
+  rewrite (run_pumpinlist _ _ ev PDone cb'); [| cbn; rewrite End; exact DR | discriminate].
+  rewrite run_notify.
+  rewrite (run_ddisconnect_tls true _ _ (mkD true true true)); [| reflexivity | reflexivity | exact Sok].
+  rewrite (recv_reply _ _ (S f18) x3 []); [| reflexivity | cbn; rewrite !Hdp; reflexivity | exact X3].
+  rewrite run_ret, SB.
+  eexists. split; [reflexivity|].
+  split. { unfold insync, ready. cbn. rewrite Hs. auto. }
+  split; [reflexivity|]. split; [reflexivity|].
+  trace_facts. auto.
+Qed.
